@@ -445,7 +445,7 @@ SUSPEND_CBS = ["ABTI_ythread_callback_suspend", "ABTI_ythread_callback_resume_su
 def rule_R3(P, rep):
     BLOCKED = P.enum_consts["ABT_THREAD_STATE_BLOCKED"]
     for cb in SUSPEND_CBS:
-        F = P.fn(cb, "src/ythread.c")
+        F = P.fn(cb, "src/ythread.c", flat=True)
         sel = Sel(calls={"ABTI_sched_set_request", "ABTI_thread_handle_request", "ABTI_pool_inc_num_blocked",
                              "ABTI_pool_dec_num_blocked"}, fields={"state", "p_link"})
         ps = [p for p in seq.sequences(F, sel) if p[1] == "ret"]
